@@ -162,6 +162,37 @@ func init() {
 		}
 		return showProposal(p)
 	}
+	// relay2 <8 relay args> <8 relay args>  =>  <out1>|<out2> : both proposals are rendered only after the second one exists
+	ops["C01.relay2"] = func(a []string) string {
+		type res struct {
+			p   *proposal.Proposal
+			cls string
+		}
+		var rs [2]res
+		for i := 0; i < 2; i++ {
+			b := a[8*i : 8*i+8]
+			msg, cls := c01Source(b[0], uint8(u64(b[2])), uint8(u64(b[3])), u64(b[4]), rid32(b[5]), b[6], b[7])
+			if cls != "ok" {
+				rs[i] = res{nil, cls + ":src"}
+				continue
+			}
+			p, cls := c01Dest(b[1], msg)
+			if cls != "ok" {
+				rs[i] = res{nil, cls + ":dst"}
+				continue
+			}
+			rs[i] = res{p, ""}
+		}
+		out := []string{}
+		for _, r := range rs {
+			if r.p == nil {
+				out = append(out, r.cls)
+			} else {
+				out = append(out, showProposal(r.p))
+			}
+		}
+		return out[0] + "|" + out[1]
+	}
 	// e2e <kind> <dstKind> <src> <dst> <nonce> <rid> <calldata> <resp>   (EVM sources; last byte of rid selects the handler)
 	//   the deposit travels as a packed Deposit log through the real events.Listener.FetchDeposits, the real
 	//   DepositEventHandler.ProcessDeposits (handler table resolved from the resource id) and the destination handler
@@ -487,9 +518,16 @@ func (g *G) malformed(kind string) []byte {
 
 func genC01(g *G) {
 	dsts := []string{"evm", "sub", "btc"}
+	var prev []string
 	emit := func(srcKind, dstKind string, a1, a2 string) {
 		s, d, n, r := g.ids()
 		g.Emit("relay", srcKind, dstKind, s, d, n, r, a1, a2)
+		// every few cases: the previous and the current deposit relayed back to back, both proposals read afterwards
+		cur := []string{srcKind, dstKind, s, d, n, r, a1, a2}
+		if prev != nil && g.Intn(5) == 0 {
+			g.Emit("relay2", append(append([]string{}, prev...), cur...)...)
+		}
+		prev = cur
 	}
 	// exhaustive small scope: recipient lengths 0..40 × tail {none, 1, 32, 33, 64} × response {none, 32} × destination
 	for rl := 0; rl <= 40; rl++ {
@@ -541,6 +579,31 @@ func genC01(g *G) {
 		emit("erc721", dk, hx(g.erc721CD()), hx(g.resp()))
 		emit("erc1155", dk, hx(g.erc1155CD()), hx(g.resp()))
 		emit("generic", dk, hx(g.genericCD()), hx(g.resp()))
+	}
+	// same-kind pairs to one destination kind, handled back to back: a proposal must not change when a later message of the
+	// same handler is processed (shared scratch buffers, cached slices)
+	for i := 0; i < g.Count(120, 6000); i++ {
+		k := []string{"erc20", "erc721", "erc1155", "generic", "generic"}[g.Intn(5)]
+		mk := func() (string, string) {
+			switch k {
+			case "erc20":
+				return hx(g.fungibleCD(g.Intn(3) == 0)), hx(g.resp())
+			case "erc721":
+				return hx(g.erc721CD()), hx(g.resp())
+			case "erc1155":
+				return hx(g.erc1155CD()), hx(g.resp())
+			}
+			return hx(g.genericCD()), hx(g.resp())
+		}
+		a1, a2 := mk()
+		b1, b2 := mk()
+		s1, d1, n1, r1 := g.ids()
+		s2, d2, n2, r2 := g.ids()
+		dk := "evm"
+		if k == "erc20" {
+			dk = g.Pick(dsts)
+		}
+		g.Emit("relay2", k, dk, s1, d1, n1, r1, a1, a2, k, dk, s2, d2, n2, r2, b1, b2)
 	}
 	// the same deposits as event logs through the real listener and ProcessDeposits (in-range calldata only: inside a log the
 	// calldata slice has spare capacity, so out-of-range slice expressions behave differently from the cap = len model)
